@@ -123,9 +123,7 @@ func parseCmdInfo(info string) ([]*descr, error) {
 			if len(top) == 0 || line == "" || line[0] == ' ' {
 				return nil, fmt.Errorf("bad indentation in cmdInfo: %q", line)
 			}
-			if line[0] == '#' {
-				continue
-			}
+			// (an indented "# …" line is NOT a comment for setupCmdDescr: it becomes a sub template)
 			store = &top[len(top)-1].sub
 			isSub = true
 		}
